@@ -132,6 +132,13 @@ struct carquet_writer {
     int64_t total_rows;
     bool header_written;
 
+    /* Set when finishing a row group failed half-way: while its pages were
+     * being put together, or while its metadata was recorded after its bytes
+     * had gone to the stream. Neither step can be repeated, so the file can
+     * no longer be completed: every later flush, and close, reports this
+     * status. (A failed fwrite is remembered by the stream's error indicator.) */
+    carquet_status_t broken;
+
     /* Arena for metadata allocations */
     carquet_arena_t arena;
 };
@@ -279,6 +286,9 @@ static carquet_status_t ensure_row_group(carquet_writer_t* writer) {
 }
 
 static carquet_status_t flush_row_group(carquet_writer_t* writer) {
+    if (writer->broken != CARQUET_OK) {
+        return writer->broken;
+    }
     if (!writer->current_row_group) {
         return CARQUET_OK;
     }
@@ -290,6 +300,7 @@ static carquet_status_t flush_row_group(carquet_writer_t* writer) {
         writer->current_row_group, &data, &size, writer->current_row_group_rows);
 
     if (status != CARQUET_OK) {
+        writer->broken = status;
         return status;
     }
 
@@ -306,6 +317,7 @@ static carquet_status_t flush_row_group(carquet_writer_t* writer) {
         row_group_info_t* new_rgs = realloc(writer->row_groups,
             new_cap * sizeof(row_group_info_t));
         if (!new_rgs) {
+            writer->broken = CARQUET_ERROR_OUT_OF_MEMORY;
             return CARQUET_ERROR_OUT_OF_MEMORY;
         }
         writer->row_groups = new_rgs;
@@ -332,6 +344,7 @@ static carquet_status_t flush_row_group(carquet_writer_t* writer) {
         sizeof(parquet_column_chunk_t));
 
     if (!rg_info->metadata.columns) {
+        writer->broken = CARQUET_ERROR_OUT_OF_MEMORY;
         return CARQUET_ERROR_OUT_OF_MEMORY;
     }
 
@@ -357,6 +370,7 @@ static carquet_status_t flush_row_group(carquet_writer_t* writer) {
         meta->num_encodings = 2;  /* PLAIN + RLE for levels */
         meta->encodings = carquet_arena_calloc(&writer->arena, 2, sizeof(carquet_encoding_t));
         if (!meta->encodings) {
+            writer->broken = CARQUET_ERROR_OUT_OF_MEMORY;
             return CARQUET_ERROR_OUT_OF_MEMORY;
         }
         meta->encodings[0] = CARQUET_ENCODING_PLAIN;
@@ -366,11 +380,13 @@ static carquet_status_t flush_row_group(carquet_writer_t* writer) {
         meta->path_len = 1;
         meta->path_in_schema = carquet_arena_calloc(&writer->arena, 1, sizeof(char*));
         if (!meta->path_in_schema) {
+            writer->broken = CARQUET_ERROR_OUT_OF_MEMORY;
             return CARQUET_ERROR_OUT_OF_MEMORY;
         }
         if (col_info->path) {
             meta->path_in_schema[0] = carquet_arena_strdup(&writer->arena, col_info->path);
             if (!meta->path_in_schema[0]) {
+                writer->broken = CARQUET_ERROR_OUT_OF_MEMORY;
                 return CARQUET_ERROR_OUT_OF_MEMORY;
             }
         }
